@@ -320,7 +320,7 @@ static int visit_cb(void * e, void * p)
         cstl_hash_erase(cur, e);
         ASAN_POISON_MEMORY_REGION(e, sizeof(struct elem));
     }
-    return idx == stop_at ? 7 : 0;
+    return idx == stop_at ? h_stop_value(stop_at) : 0;
 }
 
 static int cvisit_cb(const void * e, void * p)
@@ -329,7 +329,7 @@ static int cvisit_cb(const void * e, void * p)
     h_priv_check(p, 3);
     record(e);
     nvisited++;
-    return idx == stop_at ? 7 : 0;
+    return idx == stop_at ? h_stop_value(stop_at) : 0;
 }
 
 static void clear_cb(void * e, void * p)
